@@ -296,7 +296,7 @@ var specC08Cycle = Register(&Spec[DocCase]{
 })
 
 func TestC08_Cycle(t *testing.T) {
-	specC08Cycle.Run(t, func(t *rapid.T) DocCase { return genDocCase(t, 4) }, 8000, 80000)
+	specC08Cycle.Run(t, func(t *rapid.T) DocCase { return genDocCase(t, 4) }, 15000, 100000)
 }
 
 // ------------------------------------------------------------------ encoder
@@ -365,5 +365,5 @@ var specC08Encoder = Register(&Spec[EncCase]{
 })
 
 func TestC08_Encoder(t *testing.T) {
-	specC08Encoder.Run(t, genEncCase, 6000, 60000)
+	specC08Encoder.Run(t, genEncCase, 10000, 60000)
 }
